@@ -5,12 +5,16 @@
 //!       groups, PDUs, DICOM JSON, pixel data objects, text forms) + their FIELD layout
 //!       (a minimal walk over the bytes just encoded: transport, not an oracle)
 //!   drv_malform run --seeds S --cases C --out trace.ndjson --details D --work DIR
-//!       parent: materialises nothing itself; it runs `--worker` children over the cases,
-//!       watches the progress marker, turns a crash of the child into outcome "abort"
-//!       and a case that burns CPU without progress into outcome "hang", resumes after it,
-//!       and writes the ndjson trace for specs/malform/Trace_Malform.tla
-//!   drv_malform --worker ...   (internal) executes cases: splice edits (Malform!Apply) on
-//!       the seed bytes, then EVERY applicable entry point under `catch`
+//!           [--mem-mib 256] [--hang-cpu 10] [--id-offset N]
+//!       fork server: loads seeds and cases, forks a worker child (memory limit via setrlimit,
+//!       8 MiB stack) which materialises each case - the splice edits of Malform!Apply on the
+//!       seed bytes - and feeds it to EVERY applicable entry point under `catch`, publishing
+//!       (case, entry point) in shared memory before each execution.  A child that dies is
+//!       outcome "abort" for that (case, entry point), one that burns CPU without progress is
+//!       killed: outcome "hang"; a new child resumes right after it.  Writes the ndjson trace
+//!       for specs/malform/Trace_Malform.tla and the details (messages, panic locations).
+//!   drv_malform one  --seeds S --cases C --id N [--ep substr] [--trace]   one case in-process
+//!   drv_malform show --seeds S --cases C --id N [--write file]            materialised input
 //!
 //! A case is what TLC printed from Gen_Malform.tla:
 //!   {seed, muts:[{m,f,p,v}..], edits:[{at,del,ins,rep,rnd}..], bytes?}
@@ -1045,6 +1049,16 @@ fn deep(n: u64) -> u64 {
     }
 }
 
+/// the reading entry point whose result a composite entry point works on
+fn prerequisite(kind: &str, name: &str) -> Option<String> {
+    match kind {
+        "file" if name.starts_with("decode_pixel_data") || name.starts_with("dump_file_to") => Some("from_reader[auto]".to_string()),
+        "dataset" if name.starts_with("dump_object_to[") => Some(name.replace("dump_object_to[", "read_dataset_with_ts[")),
+        "json" if name.starts_with("dump_object_to") => Some("dicom_json::from_str[object]".to_string()),
+        _ => None,
+    }
+}
+
 fn sink_dump_file(o: &Obj, fmt: dicom_dump::DumpFormat) -> bool {
     let mut opt = dicom_dump::DumpOptions::new();
     opt.format(fmt.clone()).color_mode(dicom_dump::ColorMode::Never);
@@ -1440,6 +1454,15 @@ fn worker(sh: &Shared, from: u64, skips: &Skips) {
                 outs.push(if o == "hang" { "hang" } else { "abort" });
                 det.push(json!({"ep": name, "outcome": o, "msg": msg, "loc": ""}));
                 continue;
+            }
+            // a composite entry point (decode / dump what was read) is not applicable when its
+            // prerequisite read killed the worker: that defect belongs to the reading entry point
+            if let Some(pre) = prerequisite(&seed.kind, name) {
+                let died = names.iter().position(|n| *n == pre).map(|j| j < outs.len() && (outs[j] == "abort" || outs[j] == "hang"));
+                if died == Some(true) {
+                    outs.push("err");
+                    continue;
+                }
             }
             sh.marker.set(id, k as u64);
             match run_ep(&seed.kind, name, &input, &sh.scratch) {
